@@ -40,6 +40,9 @@ def all_rows(buffers):
 
 class C03(Check):
     pid = "C03"
+    level_text = (
+        "Bounded exhaustive: every scaffold of <=2 arbitrary rows (3 over a reduced set) x widths x EOL x buffers x line lengths streamed by the real code and compared byte for byte with slicing; end to end through pretext-to-asm on 3 300 scratch-file runs."
+    )
     technique = (
         "exhaustive scope enumeration on the real FastaIndex/FastaStream: all scaffolds of <= K arbitrary rows over a 2-record "
         "FASTA x widths x EOL x buffer sizes x line lengths, slicing reference; plus a CLI slice through pretext-to-asm"
